@@ -30,6 +30,67 @@ def _is_conc(x):
         return type(x) in (str, int, bytes)
 
 
+NORMALISE = False   # opt-in (a props module sets lbytes.NORMALISE = True): see _norm
+
+
+def _flat(cps, lo, hi):
+    """code points lo..hi of a CrossHair code point sequence as a list of plain ints, or None when
+    one of them is symbolic (or the container is of an unknown kind).  Call with tracing off."""
+    tp = type(cps)
+    if tp is list or tp is tuple:
+        out = cps[lo:hi]
+        for c in out:
+            if type(c) is not int:
+                return None
+        return list(out)
+    name = tp.__name__
+    if name == "SliceView":
+        st, sp = cps.start, cps.stop
+        if type(st) is not int or type(sp) is not int:
+            return None
+        n = sp - st
+        lo2, hi2 = min(lo, n), min(hi, n)
+        return _flat(cps.seq, st + lo2, st + hi2)
+    if name == "SequenceConcatenation":
+        a, b_ = cps._first, cps._second
+        if type(a) not in (list, tuple) and type(a).__name__ not in ("SliceView", "SequenceConcatenation"):
+            return None
+        try:
+            na = len(a)
+        except Exception:  # noqa
+            return None
+        if type(na) is not int:
+            return None
+        left = _flat(a, min(lo, na), min(hi, na)) if lo < na else []
+        if left is None:
+            return None
+        right = _flat(b_, max(lo - na, 0), hi - na) if hi > na else []
+        if right is None:
+            return None
+        return left + right
+    return None
+
+
+def _norm(s):
+    """a CrossHair symbolic str whose code points are all plain ints (a piece of a partly symbolic
+    buffer that happens to contain none of the symbolic bytes) is replaced by the equal real str:
+    nothing is realised, but every later operation on it runs natively instead of through CrossHair's
+    Python-level string model.  No-op outside CrossHair."""
+    tr = _sys.modules.get("crosshair.tracers")
+    if tr is None:
+        return s
+    with tr.NoTracing():
+        if type(s) is str or type(s).__name__ != "LazyIntSymbolicStr":
+            return s
+        try:
+            cps = _flat(s._codepoints, 0, 1 << 60)
+        except Exception:  # noqa
+            return s
+        if cps is None:
+            return s
+        return "".join(map(chr, cps))
+
+
 _RANGES = {}
 
 
@@ -364,7 +425,7 @@ class LBytes(_LBase):
             s = "\0" * s
         else:
             s = "".join([chr(i) for i in s])
-        self.s = s
+        self.s = _norm(s) if NORMALISE else s
 
     def __hash__(self):
         return hash(self.s)
